@@ -1,5 +1,45 @@
-"""Exhaustive model checking of Round.tla (filled in with the model)."""
+"""Exhaustive model checking of Round.tla and the L2 binding of bench traces."""
+import json
+
+import vcheck as V
+
+QUICK = ["Round_q1", "Round_q2", "Round_q3"]
+THOROUGH = QUICK + ["Round_t1", "Round_t2", "Round_t3"]
+
+L2_KEEP = {"reset", "bench_call", "precision_begin", "precision_end", "ts",
+           "initial_start", "loop_begin", "gen", "count", "call",
+           "barrier_arrive", "barrier_leave", "tally_clear", "tally_snapshot",
+           "drop_out", "drop_in", "round_end", "test_break", "user_panic",
+           "bench_return", "report", "report_failed", "sched_end"}
 
 
 def run(res, prop, tier):
-    pass
+    for cfg in (QUICK if tier == "quick" else THOROUGH):
+        r = V.tlc_mc("MC_Round", cfg, workers=8)
+        res.add_mc(cfg, r)
+        if not r.get("ok"):
+            raise V.ToolError(f"MC {cfg}: {r.get('violated') or r.get('error')}")
+    # Anti-vacuity (and the model-level face of finding F5): without the
+    # unwinding guard a panic on one of two threads deadlocks the round.
+    r = V.tlc_mc("MC_Round", "Round_v_noguard", workers=4, coverage=False)
+    res.extra["necessity_variants"] = [{"config": "Round_v_noguard", "expected": "NoDeadlock",
+                                        "got": r.get("violated")}]
+    if r.get("violated") != "NoDeadlock":
+        raise V.ToolError("Round_v_noguard should deadlock")
+
+
+def bind_l2(res, prop, trace_path, label):
+    """impl -> Round.tla, step by step.  A rejection is model drift."""
+    proj, n = V.project(trace_path, L2_KEEP, suffix=".l2")
+    lines = V.read_trace(proj)
+    runs = sum(1 for x in lines if x.get("ev") == "reset")
+    r = V.tlc_trace("RoundL2Trace", "RoundL2Trace", proj)
+    res.add_trace(f"{label}:L2", r, runs, len(lines))
+    if r["accepted"]:
+        return
+    line_no = V.failing_line(r)
+    ev = lines[line_no - 1] if line_no and 0 < line_no <= len(lines) else None
+    res.drift.append({"layer": "Round.tla", "first_unmatched_event": ev,
+                      "violated": r.get("violated"),
+                      "note": "the code no longer follows the pc structure of Round.tla; exhaustive MC results do not transfer"})
+    print(f"MODEL-DRIFT property={prop} event={json.dumps(ev)}", flush=True)
